@@ -7,10 +7,16 @@ family corpus (conforming and damaged, with definitions) the harness applies
 1..5 of the listed rewrites at random positions; TLC checks by
 self-composition that original and rewritten text have the same outcome
 (TwinSameOutcome) and both are executed on the real code.
+Texts for the shipped logger and basic-mapping components (whose datatypes are
+not part of the loader specification) are handled in direction V: the pair is
+recorded with the real outcomes of both loads (fingerprint through factories
+and section values) and TLC validates with the grammar of ZLines that the two
+texts are layout-equivalent and that the outcomes then agree (MC_C15_V).
 """
 import random
 
 from .. import project, refconv, scenario, schemas, textgen
+from ..core import MachineryError
 from ..textgen import Line
 from . import c06, c08
 
@@ -94,8 +100,11 @@ def rewrite(rng, rec, lines):
         T = rec["top"] if l.info["cont"] == "" else rec["types"][l.info["cont"]]
         n = lines[i + 1]
         if n.info["role"] == "key" and n.info["cont"] == l.info["cont"] and "$" not in n:
-            k1 = refconv.keyconv(T["keytype"], body.split()[0])
-            k2 = refconv.keyconv(T["keytype"], n.strip().split()[0])
+            try:
+                k1 = refconv.keyconv(T["keytype"], body.split()[0])
+                k2 = refconv.keyconv(T["keytype"], n.strip().split()[0])
+            except KeyError:            # a key type without a reference normalisation: leave the order alone
+                return None
             if k1 is None or k2 is None or k1 == k2:
                 return None
             if l.info.get("child") is not n.info.get("child") or True:
@@ -150,6 +159,184 @@ def compare(ws, sch, rec, item, emit):
             "class": {"clause": why}}
 
 
+# -- texts for the shipped components ------------------------------------------------------------
+COMPONENT_SCHEMAS = {
+    "logger": '''<schema>
+  <import package="ZConfig.components.logger"/>
+  <section type="eventlog" name="*" attribute="eventlog"/>
+  <multisection type="logger" name="*" attribute="loggers"/>
+</schema>''',
+    "mapping": '''<schema>
+  <import package="ZConfig.components.basic" file="mapping.xml"/>
+  <sectiontype name="dict" extends="ZConfig.basic.mapping"/>
+  <sectiontype name="intkeys" extends="ZConfig.basic.mapping" keytype="integer"/>
+  <section name="*" type="dict" attribute="simple_dict"/>
+  <multisection name="+" type="dict" attribute="dicts"/>
+  <section name="*" type="intkeys" attribute="int_dict"/>
+</schema>''',
+}
+_CS = {}
+
+
+def component_schema(which):
+    import io
+    import ZConfig
+    from . import c11
+    if which not in _CS:
+        sch = ZConfig.loadSchemaFile(io.StringIO(COMPONENT_SCHEMAS[which]))
+        _CS[which] = (sch, c11.rec_of(project.digest_schema(sch)))
+    return _CS[which]
+
+
+def L(text, role, cont, **kw):
+    return Line(text, role=role, cont=cont, **kw)
+
+
+def component_text(rng, which):
+    """A text for the component schema as Lines (role / cont / type / name as textgen produces them)."""
+    out = []
+    if which == "logger":
+        def handler(cont, ind):
+            h = [L(ind + "<logfile>", "open", cont, type="logfile", name=None)]
+            keys = [("path", rng.choice(["STDOUT", "STDERR"])), ("level", rng.choice(["info", "WARN", "12", "debug"])),
+                    ("format", rng.choice(["%(message)s", "%(levelname)s %(name)s %(message)s", "%(asctime)s x"])),
+                    ("dateformat", "%H:%M"), ("style", rng.choice(["classic", "Classic"]))]
+            rng.shuffle(keys)
+            for k, v in keys[:rng.randint(1, 5)]:
+                h.append(L(ind + "  %s %s" % (k, v), "key", "logfile", child=k))
+            if not any(str(x).strip().startswith("path") for x in h):
+                h.append(L(ind + "  path STDOUT", "key", "logfile", child="path"))
+            h.append(L(ind + "</logfile>", "close", cont, type="logfile"))
+            return h
+        if rng.random() < 0.6:
+            out.append(L("<eventlog>", "open", "", type="eventlog", name=None))
+            if rng.random() < 0.7:
+                out.append(L("  level %s" % rng.choice(["info", "ERROR", "5"]), "key", "eventlog", child="level"))
+            for _ in range(rng.randint(0, 2)):
+                out += handler("eventlog", "  ")
+            out.append(L("</eventlog>", "close", "", type="eventlog"))
+        for i in range(rng.randint(0, 2)):
+            nm = rng.choice(["", "", "n%d" % i])
+            out.append(L("<logger%s>" % ((" " + nm) if nm else ""), "open", "", type="logger", name=nm or None))
+            keys = [("name", rng.choice(["zcv.x", "zcv.y.z"])), ("level", rng.choice(["all", "Trace", "50"])),
+                    ("propagate", rng.choice(["yes", "No", "true"]))]
+            rng.shuffle(keys)
+            for k, v in keys[:rng.randint(0, 3)]:
+                out.append(L("  %s %s" % (k, v), "key", "logger", child=k))
+            for _ in range(rng.randint(0, 2)):
+                out += handler("logger", "  ")
+            out.append(L("</logger>", "close", "", type="logger"))
+    else:
+        def body(cont, ind, ints):
+            ks = []
+            for _ in range(rng.randint(0, 4)):
+                k = str(rng.randint(1, 9)) if ints else rng.choice(["alpha", "Beta", "g-1", "d.e"])
+                ks.append(L(ind + "%s %s" % (k, rng.choice(["v1", "two words", "", "7"])), "key", cont, child="+"))
+            return ks
+        if rng.random() < 0.7:
+            out.append(L("<dict>", "open", "", type="dict", name=None))
+            out += body("dict", "  ", False)
+            out.append(L("</dict>", "close", "", type="dict"))
+        for i in range(rng.randint(0, 2)):
+            out.append(L("<dict d%d>" % i, "open", "", type="dict", name="d%d" % i))
+            out += body("dict", "  ", False)
+            out.append(L("</dict>", "close", "", type="dict"))
+        if rng.random() < 0.5:
+            out.append(L("<intkeys>", "open", "", type="intkeys", name=None))
+            out += body("intkeys", "  ", True)
+            out.append(L("</intkeys>", "close", "", type="intkeys"))
+    return out
+
+
+def fingerprint(obj, depth=0):
+    """What a component configuration amounts to, through factories and section values."""
+    if depth > 8:
+        return "..."
+    if hasattr(obj, "getSectionAttributes"):
+        return {"type": obj.getSectionType(), "name": obj.getSectionName(),
+                "attrs": {a: fingerprint(getattr(obj, a), depth + 1) for a in obj.getSectionAttributes()}}
+    if isinstance(obj, (list, tuple)):
+        return [fingerprint(x, depth + 1) for x in obj]
+    if isinstance(obj, dict):
+        return {repr(k): fingerprint(v, depth + 1) for k, v in obj.items()}
+    if hasattr(obj, "handler_factories"):            # logger factories
+        return {"factory": type(obj).__name__, "name": getattr(obj, "name", None), "level": obj.level,
+                "propagate": getattr(obj, "propagate", None),
+                "handlers": [fingerprint(h, depth + 1) for h in obj.handler_factories]}
+    if hasattr(obj, "section") and hasattr(obj, "create_loghandler"):      # handler factories
+        return {"factory": type(obj).__name__, "section": fingerprint(obj.section, depth + 1)}
+    return repr(obj)
+
+
+def component_outcome(which, text):
+    import io
+    import ZConfig
+    sch, _ = component_schema(which)
+    try:
+        cfg, _ = ZConfig.loadConfigFile(sch, io.StringIO(text))
+    except ZConfig.ConfigurationError as e:
+        return {"r": "err", "kind": project.exc_outcome(e)["kind"]}
+    except Exception as e:
+        return {"r": "err", "kind": "other:" + type(e).__name__}
+    return {"r": "ok", "fp": fingerprint(cfg)}
+
+
+def component_part(chk, rng, quick):
+    from .. import flow
+    from ..chars import enc_chars, ext_tables
+    recs = []
+    nrw = {}
+    for which in ("logger", "mapping"):
+        _, rec = component_schema(which)
+        for _ in range(600 if quick else 6000):
+            lines = component_text(rng, which)
+            if rng.random() < 0.25 and lines:
+                vocab = [Line(v, role="fault", cont="") for v in ["zz v1", "<nosuch>", "</dict>", "level loud", "<logfile>"]]
+                lines = textgen.damage(rng, lines, vocab, 1)
+            cur, applied = lines, []
+            for _ in range(rng.randint(1, 5)):
+                if which == "mapping" and any(l.info.get("cont") == "intkeys" for l in cur):
+                    pass
+                r = rewrite(rng, rec, cur)
+                if r is not None:
+                    # a case rewrite of a key is a layout rewrite only under a case-insensitive key type
+                    cur, name = r
+                    applied.append(name)
+                    nrw[name] = nrw.get(name, 0) + 1
+            if not applied:
+                continue
+            t1 = "".join(str(l) + "\n" for l in lines)
+            t2 = "".join(str(l) + "\n" for l in cur)
+            o1, o2 = component_outcome(which, t1), component_outcome(which, t2)
+            same_ = (o1["r"] == "err" and o2["r"] == "err") or (o1["r"] == "ok" and o2["r"] == "ok" and o1["fp"] == o2["fp"])
+            recs.append({"orig": [enc_chars(str(l)) for l in lines], "rew": [enc_chars(str(l)) for l in cur],
+                         "same": same_, "r1": o1["r"], "r2": o2["r"],
+                         "_which": which, "_t1": t1, "_t2": t2, "_o1": o1, "_o2": o2, "_rw": applied})
+    chars = set()
+    for r in recs:
+        chars.update(r["_t1"])
+        chars.update(r["_t2"])
+    lower, space = ext_tables(chars)
+    lower["~u0;"] = "~u0;"
+    header = {"lower": lower, "space": sorted(space) + ["~u0;"]}
+    cfg = flow.cfg_text(spec="SpecV", constants={"N": "@N@"}, invariants=["Verdict"],
+                        overrides={"ExtLower": "VExtLower", "ExtSpace": "VExtSpace"})
+
+    def describe(i, rec, clause, v):
+        if clause.startswith("harness:"):
+            raise MachineryError("component rewrite is not a layout rewrite (%s): %r -> %r (%s)"
+                                 % (clause, rec["_t1"], rec["_t2"], rec["_rw"]))
+        return {"clause": clause, "input": {"component": rec["_which"], "original": rec["_t1"], "rewritten": rec["_t2"],
+                                            "rewrites": rec["_rw"]},
+                "observed": {"original": rec["_o1"], "rewritten": rec["_o2"]}, "class": {"clause": clause}}
+    flow.run_v(chk, "MC_C15_V", cfg, recs, describe, header=header, nontrivial=lambda rec, v: True)
+    chk.note("component_pairs", len(recs))
+    chk.note("component_pairs_accepted", sum(1 for r in recs if r["r1"] == "ok"))
+    chk.note("component_rewrites_applied", nrw)
+    if recs:
+        chk.sample({"component": recs[0]["_which"], "original": recs[0]["_t1"], "rewritten": recs[0]["_t2"]})
+
+
 def run(chk):
     quick = chk.tier == "quick"
     rng = random.Random(chk.seed * 7919 + 15)
@@ -190,6 +377,7 @@ def run(chk):
     chk.note("scenarios", len(sc.items))
     chk.note("rewrites_applied", nrw)
     chk.note("accepted_by_spec", sum(1 for o in outs if o["o"]["r"] == "ok"))
+    component_part(chk, rng, quick)
 
 
 def replay(path):
